@@ -13,11 +13,13 @@ import (
 	"bytes"
 	"context"
 	"fmt"
+	"math"
 	"math/rand"
 
 	ipfslog "berty.tech/go-ipfs-log"
 	"berty.tech/go-ipfs-log/accesscontroller"
 	"berty.tech/go-ipfs-log/entry"
+	"berty.tech/go-ipfs-log/entry/sorting"
 	idp "berty.tech/go-ipfs-log/identityprovider"
 	"berty.tech/go-ipfs-log/iface"
 	"github.com/ipfs/go-cid"
@@ -542,6 +544,21 @@ func runAppendScenarios(rng *rand.Rand, n int, st *c06Stats, fail func(prop, mon
 				checkAppend(lc, "c1", 2, info)
 			}
 		}
+		// 3. opened with known entries and a clock of its own that lags behind them
+		for _, lag := range []int{0, na, na + nb + 5} {
+			opts := &ipfslog.LogOptions{ID: "L", Entries: la.GetEntries(), Clock: entry.NewLamportClock(w.idents["C"].PublicKey, lag)}
+			if rng.Intn(2) == 0 {
+				opts.Heads = la.Heads().Slice()
+			}
+			lo, err := ipfslog.NewLog(w.api, w.idents["C"], opts)
+			if err != nil {
+				panic(err)
+			}
+			st.aliasRuns++
+			info := map[string]interface{}{"scenario": "append on a log opened with known entries and a clock of its own", "clock_given": lag, "heads_given": opts.Heads != nil, "a_entries": na, "b_entries": nb}
+			checkAppend(lo, "o0", 1, info)
+			checkAppend(lo, "o1", 2, info)
+		}
 	}
 }
 
@@ -587,7 +604,13 @@ func runGapScenarios(rng *rand.Rand, n int, st *c06Stats, fail func(prop, mon, k
 			panic(err)
 		}
 		full := hashesOf(twin.Values().Slice())
+		var sizes []int
 		for size := 0; size <= len(full)+2; size++ {
+			sizes = append(sizes, size)
+		}
+		// "beyond the merged size" includes what a caller passes to mean "no limit"
+		sizes = append(sizes, math.MaxInt32, 1<<60, math.MaxInt)
+		for _, size := range sizes {
 			l := load()
 			st.aliasRuns++
 			info := map[string]interface{}{"scenario": "bounded merge into a log loaded with a gap", "entries_written": k, "index_size": l.Len(),
@@ -786,5 +809,126 @@ func runMixedCodecScenarios(rng *rand.Rand, n int, st *c06Stats, fail func(prop,
 				break
 			}
 		}
+	}
+}
+
+// checkLinearisation: the statement of C03 on one log (unbounded histories): Values() holds every
+// entry exactly once, every entry after its predecessors, sorted by the ordering when that is total.
+func checkLinearisation(l *ipfslog.IPFSLog, srt string, fail func(prop, mon, key, detail string, c interface{}), info interface{}) {
+	entries := l.GetEntries().Slice()
+	vals := l.Values().Slice()
+	pos := map[string]int{}
+	for i, e := range vals {
+		k := e.GetHash().String()
+		if _, dup := pos[k]; dup {
+			fail("C03", "values-nodup", "C03:duplicate", "Values() contains "+k+" twice", info)
+		}
+		pos[k] = i
+	}
+	if len(pos) != len(entries) {
+		fail("C03", "values-complete", "C03:incomplete", fmt.Sprintf("Values() has %d distinct entries, the log has %d", len(pos), len(entries)), info)
+	}
+	for _, e := range vals {
+		for _, n := range e.GetNext() {
+			if j, ok := pos[n.String()]; ok && j > pos[e.GetHash().String()] {
+				fail("C03", "values-causal", "C03:not-causal", fmt.Sprintf("%q (clock %d) is listed before its predecessor %q (clock %d)", e.GetPayload(), e.GetClock().GetTime(), vals[j].GetPayload(), vals[j].GetClock().GetTime()), info)
+			}
+		}
+	}
+	if srt == "hash" || !hasTies(entries) {
+		fn := sorting.NoZeroes(sortFnOf(srt))
+		for i := 0; i+1 < len(vals); i++ {
+			v, err := fn(vals[i], vals[i+1])
+			if err != nil || v >= 0 {
+				fail("C03", "values-sorted", "C03:not-sorted", fmt.Sprintf("Values()[%d] %q (clock %d) is not before Values()[%d] %q (clock %d) in the configured ordering (cmp=%d err=%v)",
+					i, vals[i].GetPayload(), vals[i].GetClock().GetTime(), i+1, vals[i+1].GetPayload(), vals[i+1].GetClock().GetTime(), v, err), info)
+				break
+			}
+		}
+	}
+}
+
+// Linearisation of logs whose clock was handed to them (C03): NewLog takes a clock to resume from
+// and, optionally, the entries and heads the log starts with.  The clock may run far ahead (an
+// application that seeds it from wall-clock nanoseconds, times around and above 2^53) or lag behind
+// the entries given (a fresh clock next to known entries).  After any appends and unbounded merges
+// the view must still be a linearisation.
+func runSeededClockScenarios(rng *rand.Rand, n int, st *c06Stats, fail func(prop, mon, key, detail string, c interface{})) {
+	ctx := context.Background()
+	names := []string{"A", "B", "C"}
+	for it := 0; it < n; it++ {
+		srt := []string{"lww", "hash"}[it%2]
+		// 1. clocks far ahead
+		w := newWorld()
+		base := pick(rng, []int{1<<53 - 2, 1 << 53, 1<<53 + 1, 1700000000000000000, 1 << 62, 1<<31 - 1, 41})
+		var logs []*ipfslog.IPFSLog
+		for i, nm := range names {
+			opts := &ipfslog.LogOptions{ID: "L", SortFn: sortFnOf(srt)}
+			if i != 1 {
+				opts.Clock = entry.NewLamportClock(w.idents[nm].PublicKey, base+rng.Intn(200)*i)
+			}
+			l, err := ipfslog.NewLog(w.api, w.idents[nm], opts)
+			if err != nil {
+				panic(err)
+			}
+			logs = append(logs, l)
+		}
+		st.aliasRuns++
+		info := map[string]interface{}{"scenario": "appends and unbounded merges on logs opened with a seeded clock", "base_time": base, "sort": srt, "seed_iteration": it}
+		for s := 0; s < 12; s++ {
+			a := rng.Intn(3)
+			if rng.Intn(3) > 0 {
+				if _, err := logs[a].Append(ctx, []byte(fmt.Sprintf("k%d-%d", a, s)), &ipfslog.AppendOptions{PointerCount: pick(rng, []int{0, 1, 2})}); err != nil {
+					panic(err)
+				}
+			} else if b := rng.Intn(3); b != a {
+				if _, err := logs[a].Join(logs[b], -1); err != nil {
+					panic(err)
+				}
+			}
+			checkLinearisation(logs[a], srt, fail, info)
+		}
+		// 2. a clock that lags behind the entries the log is opened with
+		w = newWorld()
+		src, _ := ipfslog.NewLog(w.api, w.idents["A"], &ipfslog.LogOptions{ID: "L", SortFn: sortFnOf(srt)})
+		k := 2 + rng.Intn(5)
+		for i := 0; i < k; i++ {
+			if _, err := src.Append(ctx, []byte(fmt.Sprintf("p%d", i+1)), nil); err != nil {
+				panic(err)
+			}
+		}
+		lag := pick(rng, []int{0, 0, 1, k - 1, k, k + 3})
+		opts := &ipfslog.LogOptions{ID: "L", SortFn: sortFnOf(srt), Entries: src.GetEntries(), Clock: entry.NewLamportClock(w.idents["B"].PublicKey, lag)}
+		if rng.Intn(2) == 0 {
+			opts.Heads = src.Heads().Slice()
+		}
+		opened, err := ipfslog.NewLog(w.api, w.idents["B"], opts)
+		if err != nil {
+			panic(err)
+		}
+		st.aliasRuns++
+		info2 := map[string]interface{}{"scenario": "a log opened with known entries and a clock of its own, then appended to and merged", "entries": k, "clock_given": lag, "heads_given": opts.Heads != nil, "sort": srt, "seed_iteration": it}
+		other, _ := ipfslog.NewLog(w.api, w.idents["C"], &ipfslog.LogOptions{ID: "L", SortFn: sortFnOf(srt)})
+		for i := 0; i < 1+rng.Intn(k+2); i++ {
+			if _, err := other.Append(ctx, []byte(fmt.Sprintf("c%d", i+1)), nil); err != nil {
+				panic(err)
+			}
+		}
+		for s := 0; s < 3; s++ {
+			if _, err := opened.Append(ctx, []byte(fmt.Sprintf("late%d", s)), nil); err != nil {
+				panic(err)
+			}
+			checkLinearisation(opened, srt, fail, info2)
+			if s == 1 {
+				if _, err := opened.Join(other, -1); err != nil {
+					panic(err)
+				}
+				checkLinearisation(opened, srt, fail, info2)
+			}
+		}
+		if _, err := other.Join(opened, -1); err != nil {
+			panic(err)
+		}
+		checkLinearisation(other, srt, fail, info2)
 	}
 }
